@@ -570,6 +570,17 @@ inductive Op where
   | load (slot : Nat) (path : Nat)
   | autoload (slot : Nat) (kind : Kind) (path : Nat) (rand : List (List Tok))
 
+/-- the constructor call `Kind(num_visible, num_hidden, num_aux, unitary_dict, gpu, module)` as the caller writes it
+(positive_wavefunction.py:44-56, complex_wavefunction.py:66-82, density_matrix.py:64-82): `if module is None` selects
+the sizes branch; otherwise the module branch, which never looks at `num_visible` / `num_hidden` / `num_aux`
+(whatever the caller passed alongside the module: nothing, the module's own sizes, or other numbers) and draws no
+random numbers. `module` : the caller's variable holding the RBM. -/
+def ctorOp (slot : Nat) (kind : Kind) (nv : Nat) (nh na : Option Nat) (ud : Option (List (String × Tok)))
+    (module : Option Nat) (rand : List (List Tok)) : Op :=
+  match module with
+  | none => .construct slot kind nv nh na ud rand
+  | some mslot => .constructFrom slot kind mslot ud
+
 /-- the error reported for an operation on an unbound caller variable (never generated) -/
 def unbound : SErr := .AttributeError
 
